@@ -275,6 +275,21 @@ class _Simplify(ast.NodeTransformer):
         return node
 
 
+def _literal_truth(term: str) -> Optional[bool]:
+    """truth value of a term that is a literal (``0``, ``''``, ``b''``, ``()``, ``[]``, ``3``, ``not 0``), else None"""
+    t = term.strip()
+    neg = False
+    while t.startswith('not '):
+        t, neg = t[4:].strip(), not neg
+    if not t or not (t[0] in '0123456789\'"([{-' or t[:2] in ("b'", 'b"')):
+        return None
+    try:
+        v = ast.literal_eval(t)
+    except (ValueError, SyntaxError, MemoryError, RecursionError):
+        return None
+    return (not bool(v)) if neg else bool(v)
+
+
 def _balanced(t: str) -> bool:
     """is ``t`` one parenthesised-balanced expression text with no top-level comma (so ``bool(t)`` was a one-argument call)?"""
     d = 0
@@ -446,6 +461,12 @@ class SymClient(Client):
         try:
             r = self.repo.resolve_expr(fn, self.mod, self.cls)
         except NotConst:
+            # ``<object>.m(...)`` where m is a helper method (see Repo.is_helper) defined by exactly one class of the package
+            # and by nothing else: the call can only mean that method, whatever the receiver is
+            if isinstance(fn, ast.Attribute):
+                u = self.repo.unique_helper_method(fn.attr)
+                if u is not None:
+                    return FuncRef(u.module.name, u.qualname)
             return None
         if isinstance(r, ClassRef):
             try:
@@ -911,6 +932,10 @@ class SymClient(Client):
             if v in ('False', 'None'):
                 outs_f.append(s1)
                 continue
+            lit = _literal_truth(v)
+            if lit is not None:
+                (outs_t if lit else outs_f).append(s1)
+                continue
             dec = _decide_none_test(test, self, s1)
             if dec is True:
                 outs_t.append(s1)
@@ -962,9 +987,19 @@ class SymClient(Client):
             if isinstance(x, ast.Constant):
                 return ([st], []) if x.value else ([], [st])
             a = ast.unparse(x)
+            return atom(a, st)
+
+        def atom(a, st):
+            # a value without calls that was already tested on this path has the truth it had then (a term with a call
+            # may denote another call of the same text: ``fp.read(n)`` in the next iteration)
+            if '(' not in a:
+                if ('+' + a) in st.conds:
+                    return [st], []
+                if ('-' + a) in st.conds:
+                    return [], [st]
             return [st.add_cond('+' + a)], [st.add_cond('-' + a)]
         if e is None or not isinstance(e, (ast.BoolOp, ast.UnaryOp)):
-            return [s.add_cond('+' + txt)], [s.add_cond('-' + txt)]
+            return atom(txt, s)
         return go(e, s)
 
     def loop_bind(self, st: ast.For, s: SymState):
